@@ -19,7 +19,7 @@ The small-step machine takes every method of `process.Process` as ONE critical s
 atomic step under `p.mu`). `Generated/Locks.lean` is regenerated from process.go on every run:
 every method that locks `p.mu` does so at exactly one site – except `Fork`, whose body contains
 its own critical section (`children++`, the model's `forkAdd` step) and the closure of the child's
-wait-done hook (`children--`, the model's `waitDone` hook step, run by the child's Exit). -/
+wait-done hook (`children--` and the Broadcast at 0, the model's `waitDone` hook step, run by the child's Exit). -/
 open Uniflow.Generated.Locks in
 theorem C04.atomic_sections :
     (acquireSites.filter (fun a => a.1 == "process.Process" && a.2.1 != "Fork")).all (fun a => a.2.2.2 == 1) = true ∧
@@ -34,13 +34,13 @@ open Uniflow.Process Uniflow.Generated.ProcessFacts
 /-! ## `Exit` -/
 namespace C04
 
-def cmpHolds (op : String) (x n : Nat) : Option Bool :=
-  if op = "==" then some (x == n)
-  else if op = "!=" then some (x != n)
-  else if op = ">" then some (decide (x > n))
-  else if op = ">=" then some (decide (x ≥ n))
-  else if op = "<" then some (decide (x < n))
-  else if op = "<=" then some (decide (x ≤ n))
+def cmpHolds (op : String) (x : Int) (n : Nat) : Option Bool :=
+  if op = "==" then some (decide (x = (n : Int)))
+  else if op = "!=" then some (decide (x ≠ (n : Int)))
+  else if op = ">" then some (decide (x > (n : Int)))
+  else if op = ">=" then some (decide (x ≥ (n : Int)))
+  else if op = "<" then some (decide (x < (n : Int)))
+  else if op = "<=" then some (decide (x ≤ (n : Int)))
   else none
 
 /-- the two status tests of process.go on a model process -/
@@ -190,7 +190,7 @@ theorem C04.fork_as_modelled (s : State) (p : Nat) :
     ((mkChild s p).procs s.np).hooks = [⟨.waitDone p, s.nextTok⟩] ∧
     ((mkChild s p).procs s.np).parent = some p ∧
     ((mkChild s p).procs s.np).terminated = false ∧
-    ((mkChild s p).procs s.np).waitCnt = 0 := by
+    ((mkChild s p).procs s.np).children = 0 := by
   refine ⟨by decide, by decide, ?_, ?_, ?_, ?_⟩ <;> simp [mkChild, alloc, setProc, upd]
 
 theorem C04.join_facts :
@@ -199,19 +199,43 @@ theorem C04.join_facts :
     joinCond = ("p.children", ">", 0) := by
   decide
 
-/-- `Join` returns exactly when the extracted condition of its wait loop is false of the child counter (and it is a
-loop: the condition is re-checked after every wake-up) – the model's `joining` step. -/
+/-- `Join` is a loop (`for`) around `p.join.Wait()`: one test of the extracted condition against the child counter (a Go
+`int`, compared as an integer) per step – false: `Join` returns; true: the thread parks in `Wait` and, once parked,
+does not move by itself – the model's `joining` / `waiting` steps. -/
 theorem C04.join_wait_as_modelled (s : State) (t p : Nat) (h : (s.threads t).pc = .joining p) :
-    joinLoop.kind = "for" ∧
+    joinLoop.kind = "for" ∧ joinLoop.body = ["p.join.Wait()"] ∧
     contStep s t =
-      (if C04.cmpHolds joinCond.2.1 (s.procs p).waitCnt joinCond.2.2 = some false
-       then setThread s t { s.threads t with pc := .idle } else s) := by
+      (if C04.cmpHolds joinCond.2.1 (s.procs p).children joinCond.2.2 = some false
+       then setThread s t { s.threads t with pc := .idle }
+       else setThread s t { s.threads t with pc := .waiting p }) ∧
+    (∀ s' : State, (s'.threads t).pc = .waiting p → contStep s' t = s') := by
   have hc : joinCond = ("p.children", ">", 0) := by decide
-  refine ⟨by decide, ?_⟩
-  rw [hc]
-  by_cases hw : (s.procs p).waitCnt = 0
-  · simp [contStep, h, hw, C04.cmpHolds]
-  · simp [contStep, h, hw, C04.cmpHolds]
+  refine ⟨by decide, by decide, ?_, ?_⟩
+  · rw [hc]
+    by_cases hw : 0 < (s.procs p).children
+    · simp [contStep, h, hw, C04.cmpHolds]
+    · simp [contStep, h, hw, C04.cmpHolds]
+  · intro s' h'
+    simp [contStep, h']
+
+/-- The child's wait-done hook as the closure extracted from `Fork` reads: under `p.mu`, decrement, and Broadcast
+exactly when the counter has become 0 – the model's `waitDone`: every thread parked in `p.join.Wait()` is put back in
+front of the loop condition, nothing else about the threads changes. There is no panic path. -/
+theorem C04.wait_done_as_modelled (s : State) (p : Nat) :
+    forkClosure = ["func#1(err error)", "  p.mu.Lock()", "  defer p.mu.Unlock()", "  if p.children--; p.children == 0",
+      "    p.join.Broadcast()"] ∧
+    ((waitDone s p).procs p).children = (s.procs p).children - 1 ∧
+    (∀ t, ((waitDone s p).threads t) =
+      if (s.procs p).children - 1 = 0 ∧ (s.threads t).pc = .waiting p
+      then { s.threads t with pc := .joining p } else s.threads t) := by
+  refine ⟨by decide, ?_, ?_⟩
+  · unfold waitDone; dsimp only; split <;> simp [broadcast, setProc, upd]
+  · intro t
+    unfold waitDone; dsimp only
+    by_cases h0 : (s.procs p).children - 1 = 0
+    · rw [if_pos h0]
+      by_cases h1 : (s.threads t).pc = .waiting p <;> simp [broadcast, setProc, h0, h1]
+    · rw [if_neg h0]; simp [setProc, h0]
 
 /-! ## outlines -/
 
